@@ -28,6 +28,19 @@ def main():
                 except Exception as e:
                     res.append({"raises": exc_kind(e)})
             out["fill"] = res
+            # the other half: what the parser reads back from the wrapped text, each line indented as an emitter would
+            from doctrans.docstring_parsers import _set_name_and_type
+
+            un = []
+            for k, t in enumerate(c["fill"]):
+                try:
+                    pad = ["", "    ", "        ", "  \t"][k % 4]
+                    wrapped = "\n".join((pad if i else "") + l for i, l in enumerate(fill(t).split("\n")))
+                    _, p = _set_name_and_type(("probe", {"doc": wrapped, "typ": "int"}), False, True)
+                    un.append({"text": wrapped, "ok": p["doc"]})
+                except Exception as e:
+                    un.append({"text": t, "raises": exc_kind(e)})
+            out["unwrap"] = un
         else:
             ir = helper.py_ir(c["ir"])
             for tag, ww in (("wrapped", True), ("unwrapped", False)):
